@@ -1,6 +1,6 @@
 use std::{
     self,
-    collections::HashMap,
+    collections::{HashMap, HashSet},
     sync::{Arc, atomic::AtomicBool},
 };
 
@@ -404,6 +404,7 @@ impl<C: Config> Engine<C> {
         &self,
         computing: &QueryComputing,
         target: &QueryID,
+        visited: &mut HashSet<QueryID, FxBuildHasher>,
     ) -> bool {
         if computing.callee_info.callee_queries.contains_sync(target) {
             computing
@@ -415,18 +416,32 @@ impl<C: Config> Engine<C> {
 
         let mut found = false;
 
-        // OPTIMIZE: this can be parallelized
+        // collect first: the running queries may themselves form a cycle
+        // that does not contain the target, and the map must not be held
+        // while descending
+        let mut callees = Vec::new();
         computing.callee_info.callee_queries.iter_sync(|k, _| {
-            let Some(state) =
-                self.computation_graph.computing.try_get_query_computing(k)
-            else {
-                return true;
-            };
-
-            found |= self.check_cyclic_internal(&state, target);
+            callees.push(*k);
 
             true
         });
+
+        // OPTIMIZE: this can be parallelized
+        for k in callees {
+            // every running query is looked at once, otherwise a cycle among
+            // the running queries that misses the target is walked forever
+            if !visited.insert(k) {
+                continue;
+            }
+
+            let Some(state) =
+                self.computation_graph.computing.try_get_query_computing(&k)
+            else {
+                continue;
+            };
+
+            found |= self.check_cyclic_internal(&state, target, visited);
+        }
 
         if found {
             computing
@@ -444,7 +459,11 @@ impl<C: Config> Engine<C> {
         running_state: &QueryComputing,
         target: &QueryID,
     ) -> bool {
-        self.check_cyclic_internal(running_state, target)
+        self.check_cyclic_internal(
+            running_state,
+            target,
+            &mut HashSet::with_hasher(FxBuildHasher::default()),
+        )
     }
 
     pub(super) fn is_query_running_in_scc(
